@@ -1,4 +1,5 @@
 """C13 — serialized objects are faithful (E-WIRE: write / read / length agreement)."""
+import os
 import re
 
 from ..engine import prop, rule
@@ -999,6 +1000,41 @@ UNORDERED_SRC = (r'^std::collections::(HashMap|HashSet)::<[^>]*>::(iter|keys|val
                  r'^std::iter::IntoIterator::into_iter$')
 
 
+COUNT_CARRIERS = (r'Deserializer::<?.*read_leb128_u64$', r'^std::convert::TryFrom::try_from$', r'^std::convert::TryInto::try_into$',
+                  r'^std::ops::Try::branch$', r'^std::convert::(From::from|Into::into)$', r'^std::ops::FromResidual::from_residual$',
+                  r'::read_count$')
+
+
+@rule('C13', 'announced-count-exact', configs=('default', 'p256'))
+def announced_count_exact(ctx):
+    """The number of elements a reader takes is exactly the count announced on the wire: the end of every `0..n` it iterates
+    derives from the LEB128 count through conversions only — no min / clamp / arithmetic. (A clamped count makes distinct byte
+    strings parse to the same object: bytes outside every transcript, such as the number of encapsulations, become malleable.)"""
+    F = ctx.F
+    n = 0
+    for (i, w, r, ln) in serializable_impls(F):
+        if r is None:
+            continue
+        name = norm_ty(i['self'])
+        for fb in lib.family_ext(F, r.key):
+            for b in sorted(fb.live_blocks()):
+                for st in fb.stmts(b):
+                    rv = st['rv']
+                    if not (rv['k'] == 'agg' and rv.get('adt') == 'std::ops::Range' and len(rv['ops']) == 2):
+                        continue
+                    sl = backward_slice(fb, [rv['ops'][1]], follow_mutarg=False)
+                    if not sl.has_call(r'Deserializer::<?.*read_leb128_u64$'):
+                        continue
+                    n += 1
+                    other = [c for c in sl.calls if not c.is_(*COUNT_CARRIERS) and lib.local_callee(F, c) is None]
+                    arith = [d for d in sl.rvs if d.kind == 'assign' and d.rv['k'] == 'bin']
+                    ctx.check(not other and not arith, name, 'read: loop bound = announced count',
+                              'read of %s iterates (line %d) over a count that is not the announced one as is (%s): several byte strings '
+                              'decode to the same object' % (name, st['ln'], (other[0].name if other else 'arithmetic')),
+                              'count <- read_leb128_u64 through conversions only', fb.where(st['ln']))
+    ctx.floor(n, 10 if _ONLY[0] is None else 1, 'counted loops in read implementations')
+
+
 @rule('C13', 'order', configs=('default', 'p256'))
 def order(ctx):
     """Ordered containers (hierarchies, revision chains, tracers, traps, user-key chains) go on the wire
@@ -1047,3 +1083,53 @@ def signature_compat(ctx):
     on its next refresh.  The transcript shape is therefore part of the format (C08.mac-covers)."""
     from . import c08
     c08.mac_covers(ctx)
+
+
+@rule('C13', 'hidden-state-consistent')
+def hidden_state_consistent(ctx):
+    """A live object and its reloaded copy are the same object: state that is not written out but rebuilt by `read` (the index
+    map of the ordered dictionary) is kept consistent by every in-memory edit (C03.dict-remove-shifts), otherwise the reloaded
+    structure resolves names differently from the one that was serialized."""
+    from . import c03
+    c03.dict_remove_shifts(ctx)
+
+
+GOLDEN = os.path.join(os.path.dirname(os.path.dirname(os.path.abspath(__file__))), 'wire_golden.json')
+
+
+def wire_signatures(F):
+    out = {}
+    for (i, w, r, ln) in serializable_impls(F):
+        if w is None:
+            continue
+        name = norm_ty(i['self'])
+        ws, _wev = sequences(F, w, 'w')
+        out[name] = sorted(fmt(s) for s in ws.values())
+    return out
+
+
+@rule('C13', 'wire-stable', configs=('default',))
+def wire_stable(ctx):
+    """'Objects serialized by the pinned release keep deserializing to working objects': the wire grammar of every type — the
+    ordered sequence of LEB128 counts / tags, fixed arrays, byte vectors and nested objects its `write` emits, per variant —
+    is the one recorded from the pinned tree (analyses/wire_golden.json, regenerated by bin/mkgolden only with a reviewed
+    format change). A change applied consistently to write and read round-trips, and is therefore invisible to every other
+    rule and test, yet makes every stored key and ciphertext unreadable."""
+    import json
+    F = ctx.F
+    if not os.path.exists(GOLDEN):
+        ctx.bad('-', 'anchor-missing:wire_golden.json', 'the recorded wire grammar is missing')
+        return
+    with open(GOLDEN) as f:
+        gold = json.load(f)
+    cur = wire_signatures(F)
+    n = 0
+    for name in sorted(gold):
+        if _ONLY[0] is not None and not _ONLY[0].search(name):
+            continue
+        n += 1
+        ctx.check(cur.get(name) == gold[name], name, 'wire grammar unchanged',
+                  'the wire grammar of %s is %s, the pinned release writes %s: data serialized before the change no longer '
+                  'deserializes (or deserializes to something else)' % (name, cur.get(name), gold[name]),
+                  '%d alternative(s)' % len(gold[name]))
+    ctx.floor(n, 20 if _ONLY[0] is None else 1, 'types with a recorded wire grammar')
